@@ -1,7 +1,8 @@
 (* What property C14 demands, written without looking at the implementation.
 
    Registry: the class registered for a suffix is the class of the LAST decorator application
-   that mentions the suffix; no application mentions it -> refused.
+   that mentions the suffix; no application mentions it -> refused.  This holds at every moment
+   of a history in which registrations and opens alternate freely.
    Life cycle: after the with statement no descriptor on the workbook's file is open; a close
    after that raises nothing and changes nothing. *)
 From Coq Require Import NArith List Bool.
@@ -24,6 +25,20 @@ Fixpoint last_mention (ds : list (list (list N) * N)) (s : list N) : option N :=
       | Some c => Some c
       | None => if existsb (seq_eqb s) (fst d) then Some (snd d) else None
       end
+  end.
+
+(* A history on one registry: decorator applications and opens, interleaved in any order.
+   The answer demanded of each open is the class of the last registration BEFORE it that mentions
+   the suffix (None = refused).  [before] is the list of registrations already made. *)
+Inductive hop :=
+| HRegister (names : list (list N)) (c : N)
+| HOpen (s : list N).
+
+Fixpoint history (before : list (list (list N) * N)) (ops : list hop) : list (option N) :=
+  match ops with
+  | [] => []
+  | HRegister names c :: t => history (before ++ [(names, c)]) t
+  | HOpen s :: t => last_mention before s :: history before t
   end.
 
 (* the suffix is mentioned by more than one registration (used for coverage statistics only) *)
